@@ -167,7 +167,7 @@ and the random stream advances by the number of random operators among them.
 Holds also when the request fails. -/
 theorem forward_evaluates_only_ancestors {T : TOps τ} {s : State τ} (hs : Reachable T s) (a : Addr) :
     ∃ l, (forward T s a).1.log = s.log ++ l ∧ l.Nodup ∧
-      (∀ k ∈ l, Anc s k a.oid ∧ ¬ s.evaluated k ∧ s.isParam k = false) ∧
+      (∀ k ∈ l, AncOf s k a.oid ∧ ¬ s.evaluated k ∧ s.isParam k = false) ∧
       (forward T s a).1.rndPos = s.rndPos + l.countP s.isRnd := by
   obtain ⟨l, e⟩ := forward_evaluates T (reachable_wf hs) a
   exact ⟨l, e.log, e.nodup, e.only, e.rndPos⟩
@@ -176,7 +176,7 @@ example : (forward T0 s1 ⟨3, 0⟩).1.log = s1.log ++ [3] := rfl
 /-- The same for `backward a` (which forces `a` first and evaluates nothing afterwards). -/
 theorem backward_evaluates_only_ancestors {T : TOps τ} {s : State τ} (hs : Reachable T s) (a : Addr) :
     ∃ l, (backward T s a).1.log = s.log ++ l ∧ l.Nodup ∧
-      (∀ k ∈ l, Anc s k a.oid ∧ ¬ s.evaluated k ∧ s.isParam k = false) ∧
+      (∀ k ∈ l, AncOf s k a.oid ∧ ¬ s.evaluated k ∧ s.isParam k = false) ∧
       (backward T s a).1.rndPos = s.rndPos + l.countP s.isRnd := by
   obtain ⟨l, e⟩ := backward_evaluates T (reachable_wf hs) a
   exact ⟨l, e.log, e.nodup, e.only, e.rndPos⟩
@@ -188,7 +188,7 @@ an ancestor. -/
 theorem forward_evaluates_exactly {T : TOps τ} {s : State τ} (hs : Reachable T s) {a : Addr}
     (ha : s.validAddr a = true) {v : τ} (hok : (forward T s a).2 = .ok v) :
     ∃ l, (forward T s a).1.log = s.log ++ l ∧ l.Nodup ∧
-      ∀ k, k ∈ l ↔ (Anc s k a.oid ∧ ¬ s.evaluated k ∧ s.isParam k = false) := by
+      ∀ k, k ∈ l ↔ (AncOf s k a.oid ∧ ¬ s.evaluated k ∧ s.isParam k = false) := by
   obtain ⟨l, e⟩ := forward_evaluates T (reachable_wf hs) a
   refine ⟨l, e.log, e.nodup, fun k => ⟨e.only k, ?_⟩⟩
   rintro ⟨h1, h2, h3⟩
